@@ -1056,6 +1056,7 @@ func aprCorpus() [][]string {
 func TestApproval(t *testing.T) {
 	r := h.NewReport("approval", "histories of 1..3 approval callbacks x 1..3 concurrently pending writes from 1..2 peers (real write datagrams on bound connections), per write and callback a verdict from {approve, deny, silent} delivered in time, overlapping (two verdicts past the pending lookup), after the timeout, or looked up before and committed after the timeout (goroutines parked at the yield point; real 100 ms timers); each step compared with the member of Spine.Appr selected by the probe phase, and each write judged by the SPEC monitor (presented once per callback; applied(+ack) iff all approved in time; else exactly one error result, data unchanged); non-trivial = distinct histories (by op text) that agreed to the end")
 	defer r.Write()
+	defer hbtWatchdog("TestApproval", time.Duration(h.Scale(6, 25))*time.Minute)()
 	h.InstallYield()
 
 	var mergeMu sync.Mutex
